@@ -3,6 +3,7 @@
    flate.Reader to, on every run, and what compress/flate and zlib are
    compared with. Theorems here: the decoder's verdict and output are a
    function of the bits it consumed only. *)
+From V Require Import Prefix.ReaderImpl Window.Dict Flate.Impl Flate.ImplRel Flate.ImplThms Flate.ImplExamples.
 From V Require Import Prefix.Code Prefix.GenPrefixesThms Prefix.DecTable Prefix.DecTableSpec Prefix.DecTableThms Prefix.DecCanonThms.
 From V Require Import Window.Dict Window.DictSpec Window.DictThms.
 From V Require Import Base.DepthThms Flate.Depth XFlate.Reader XFlate.RoundTripStmt Flate.Compose.
@@ -126,3 +127,68 @@ Theorem flate_decoder_tables_decode_the_canonical_code : forall lens L oldC oldL
       dec_lookup d (reverse_bits c l + 2 ^ l * rest) = Some (s mod 2 ^ 27, l).
 Proof. exact canon_table_decodes. Qed.
 Print Assumptions flate_decoder_tables_decode_the_canonical_code.
+
+(* THE PROPERTY AT IMPLEMENTATION LEVEL. [Flate/Impl.v] is a model of flate.Reader itself - the
+   Read loop with toRead and the error latch, readBlockHeader / readRawData / readBlock
+   (resumable) / finishBlock, ReadPrefixCodes with the code-length-code compaction, the
+   degenerate single-code rule and the MinBits adjustment, the Try* fast paths - composed of
+   the bit reader model, the decoder-table model and the window model, and run against the
+   real Reader PER Read CALL (bytes, error, InputOffset, OutputOffset, source position) on
+   every run (WFLIMPL). For EVERY input, every script of a Peek-capable source, a fresh Reader
+   or one Reset after ANY earlier use (recycled window and tables), and EVERY schedule of Read
+   buffer sizes: the bytes delivered are a prefix of the RFC 1951 model's output at every
+   moment, no call panics, and when an error is returned the output IS the RFC model's, the
+   error is io.EOF exactly when the RFC model accepts and otherwise the RFC model's class, and
+   on success InputOffset and the source position are exactly the stream's length *)
+Theorem flate_reader_refines_rfc1951_on_buffered_sources :
+  forall data fills reads st0 sched obs fin,
+  bytes_lt256 data -> start_state data true fills reads st0 -> fl_run st0 sched = (obs, fin) ->
+  let res := Flate.Spec.inflate data in
+  let out := concat_bytes obs in
+  prefix_of out (Flate.Spec.ir_out res) /\
+  Forall (fun o => fo_err o <> Some EPanic /\ fo_err o <> Some EFuel) obs /\
+  f_outOff fin = zlen out /\
+  (forall e, run_err obs = Some e ->
+     out = Flate.Spec.ir_out res /\
+     (e = EEOF <-> Flate.Spec.ir_err res = None) /\
+     (forall x, Flate.Spec.ir_err res = Some x -> e = x) /\
+     (Flate.Spec.ir_err res = None ->
+        f_inOff fin = Z.of_N (Flate.Spec.ir_used res) /\
+        s_pos (p_src (f_rd fin)) = N.to_nat (Flate.Spec.ir_used res))).
+Proof. exact flate_impl_refines_buffered. Qed.
+Print Assumptions flate_reader_refines_rfc1951_on_buffered_sources.
+
+(* on EVERY source kind a stream the RFC model accepts is decoded to exactly its output, ends in
+   io.EOF, and the source is advanced by exactly the stream's bytes (no over-consumption) *)
+Theorem flate_reader_decodes_every_valid_stream_exactly :
+  forall data bf fills reads st0 sched obs fin,
+    bytes_lt256 data -> start_state data bf fills reads st0 -> fl_run st0 sched = (obs, fin) ->
+    Flate.Spec.ir_err (Flate.Spec.inflate data) = None ->
+    forall e, run_err obs = Some e ->
+      e = EEOF /\ concat_bytes obs = Flate.Spec.ir_out (Flate.Spec.inflate data) /\
+      f_inOff fin = Z.of_N (Flate.Spec.ir_used (Flate.Spec.inflate data)) /\
+      s_pos (p_src (f_rd fin)) = N.to_nat (Flate.Spec.ir_used (Flate.Spec.inflate data)) /\
+      f_outOff fin = zlen (concat_bytes obs).
+Proof. exact flate_impl_refines_rfc1951_valid. Qed.
+Print Assumptions flate_reader_decodes_every_valid_stream_exactly.
+
+(* on a ReadByte-only source: never a wrong byte, success exactly as the RFC model; on an
+   invalid stream the class is the RFC model's OR UnexpectedEOF after a prefix - the known
+   finding D10, which is exactly the gap between this theorem and the one above ... *)
+Theorem flate_reader_on_bytereader_sources :
+  forall data fills reads st0 sched obs fin,
+  bytes_lt256 data -> start_state data false fills reads st0 -> fl_run st0 sched = (obs, fin) ->
+  let res := Flate.Spec.inflate data in
+  let out := concat_bytes obs in
+  prefix_of out (Flate.Spec.ir_out res) /\
+  Forall (fun o => fo_err o <> Some EPanic /\ fo_err o <> Some EFuel) obs /\
+  f_outOff fin = zlen out /\
+  (forall e, run_err obs = Some e ->
+     (e = EEOF <-> Flate.Spec.ir_err res = None) /\
+     (Flate.Spec.ir_err res = None ->
+        out = Flate.Spec.ir_out res /\ f_inOff fin = Z.of_N (Flate.Spec.ir_used res) /\
+        s_pos (p_src (f_rd fin)) = N.to_nat (Flate.Spec.ir_used res)) /\
+     (forall x, Flate.Spec.ir_err res = Some x ->
+        (e = x /\ out = Flate.Spec.ir_out res) \/ e = EUEOF)).
+Proof. exact flate_impl_refines_bytereader. Qed.
+Print Assumptions flate_reader_on_bytereader_sources.
